@@ -12,7 +12,7 @@ MANIFEST = dict(
          "(Spec) is evaluated next to the implementation on every hot case; free-running goroutine runs are matched against SOME interleaving (search only). "
          "TakeUntil's two atomic actions are modelled at micro-step level: every schedule is explained by an arrival order (theorem), tied by a parked-signal replay. "
          "Deviation (TakeUntil/SkipUntil drop the signal's error, pinned by tests) is proved as witness + _partial theorems and replayed as a known finding."
-         ' TakeUntil, SkipUntil, SampleWhen, ThrottleWhen and MergeAll (Merge / MergeWith* / MergeMap*) are re-translated from the Go source on every run (go/extract/multigen.go -> RoGen/MultiGen.lean) and proved to refine the hand-written machines (MMachine.Sim, RoProps/C05gen: indistinguishable runs for every configuration of sources, subscription context, interleaving and cut); the C05 theorems are restated for the regenerated machines.',
+         ' TakeUntil, SkipUntil, SampleWhen, ThrottleWhen and MergeAll (Merge / MergeWith* / MergeMap*) are re-translated from the Go source on every run (go/extract/multigen.go -> RoGen/MultiGen.lean) and proved to refine the hand-written machines (MMachine.Sim, RoProps/C05gen: indistinguishable runs for every configuration of sources, subscription context, interleaving and cut); the C05 theorems are restated for the regenerated machines. A GroupBy group / WindowWhen window keeps its source order while a late subscriber is replayed the backlog (kind=nextret scen=groupby|window, deterministic schedule; premise RoProps/C10 subjects_wellLocked over the regenerated lock skeletons).',
     technique="Lean 4 proof (induction over arbitrary event sequences with machine invariants; generic emit-only refinement theorem) + differential correspondence of the executable model against the implementation",
     ref='5/C05')
 
@@ -204,7 +204,7 @@ import C05b
 import symmetry_part
 import C05_gen
 
-LEAN_MODULES = ['C05', 'C05b'] + symmetry_part.LEAN_MODULES + C05_gen.LEAN_MODULES
+LEAN_MODULES = ['C05', 'C05b'] + symmetry_part.LEAN_MODULES + C05_gen.LEAN_MODULES + ['C10']
 
 PARTS = [part_a, C05b.parts]
 
@@ -217,6 +217,13 @@ def check(ctx):
             rules.append(info['rule'])
         assumptions += info.get('assumptions', [])
         extra.update(info.get('extra', {}))
+    # a group of GroupBy / a window of WindowWhen keeps its source's order also while a late consumer is still being replayed the
+    # backlog: a value the source sends meanwhile is delivered after the backlog, and the producer waits for it (kind=nextret; the
+    # premise — Subscribe and its replay are one critical section of the unicast subject — is RoProps/C10 subjects_wellLocked)
+    nrows = [r for r in R.run_kind(ctx, 'nextret', shards=2) if 'scen=groupby' in r[0] or 'scen=window' in r[0] or 'scen=unicast' in r[0]]
+    R.compare(ctx, nrows, lambda d: (flag(d), d.get('order'), d.get('delivered')), 'C05 a group / window keeps its source order while a late subscriber is replayed the backlog',
+              nontrivial=lambda c, gd: True, recheck=1)
+    rules.append('kind=nextret (unicast, groupby, window): backlog 1, 2, 5 x repetitions; a value sent during the replay is delivered after the backlog')
     sym = symmetry_part.parts(ctx)
     rules.append(sym['rule_part'])
     gen = C05_gen.parts(ctx)
